@@ -71,8 +71,8 @@ Definition observe (c : cfg) (n : N) (s : state) : obs :=
      o_ta := total_assets s;
      o_aal := map (fun o => map (allowance (now s) (asset s) o) (univ n)) (univ n);
      o_sal := map (fun o => map (allowance (now s) (share s) o) (univ n)) (univ n);
-     o_dec := c_adec c + c_off c;
-     o_asset := 1 |}.
+     o_dec := match vault_decimals c s with Ok d => d | Fail => -1 end;
+     o_asset := match query_asset s with Ok a => if N.eqb a ASSET_ADDR then 1 else 0 | Fail => -1 end |}.
 
 (* ---------- diff: replay through the model ---------- *)
 Fixpoint replay (c : cfg) (n : N) (s : state) (its : list item) (i : N) : N :=
@@ -86,14 +86,17 @@ Fixpoint replay (c : cfg) (n : N) (s : state) (its : list item) (i : N) : N :=
       else N.succ i
   end.
 
+Definition ctor_dec (r : res (state * Z)) : res Z := match r with Ok (_, d) => Ok d | Fail => Fail end.
+
 Definition diff (t : trace) : N :=
   let h := fst t in
-  if negb (eqb_rz (construct (h_cfg h)) (h_ctor h)) then 1%N
-  else match h_ctor h with
+  let r := construct (h_cfg h) (h_now h) in
+  if negb (eqb_rz (ctor_dec r) (h_ctor h)) then 1%N
+  else match r with
        | Fail => match snd t with [] => 0%N | _ => 1%N end
-       | Ok _ =>
-           if eqb_obs (observe (h_cfg h) (h_n h) (init (h_now h))) (h_obs0 h)
-           then replay (h_cfg h) (h_n h) (init (h_now h)) (snd t) 0%N
+       | Ok (s0, _) =>
+           if eqb_obs (observe (h_cfg h) (h_n h) s0) (h_obs0 h)
+           then replay (h_cfg h) (h_n h) s0 (snd t) 0%N
            else 1%N
        end.
 
@@ -240,6 +243,8 @@ Definition mon_call (c : cfg) (n : N) (prev : obs) (it : item) : bool :=
             | QMaxWithdraw o => spec_conv P (fn1 (o_sb prev) o) (A + 1) (S + P) Floor
             | QMaxRedeem o => Ok (fn1 (o_sb prev) o)
             end)
+  (* the asset address and the decimals offset are set once, by the constructor: any later set_* fails *)
+  | SetAsset _ | SetOffset _ => is_fail out
   end.
 
 (* clauses common to every call *)
@@ -270,11 +275,33 @@ Definition upd2z (g : addr -> addr -> Z) (o s : addr) (v : Z) : addr -> addr -> 
 Definition aged (lu : addr -> addr -> Z) (now' : Z) (al : addr -> addr -> Z) : addr -> addr -> Z :=
   fun o s => if lu o s <? now' then 0 else al o s.
 
-Definition mon_allow (n : N) (st : mstate) (it : item) : bool :=
+(* the assets can be pulled: the operator signed root and nested call, [f] holds them, and an operator other
+   than [f] has the allowance (whose live_until lies within the host's maximal TTL) *)
+Definition can_pull_obs (c : cfg) (n : N) (st : mstate) (au : auths) (assets : Z) (f o : addr) : bool :=
+  let prev := m_obs st in
+  auth_full au o && (0 <=? assets) && (assets <=? fn1 (o_ab prev) f)
+  && (N.eqb o f
+      || ((assets <=? fn2 (o_aal prev) f o)
+          && ((assets <=? 0) || (m_alu st f o <=? m_now st + c_max_ttl c - 1))))
+  && (f <? n)%N && (o <? n)%N.
+
+Definition mon_allow (c : cfg) (n : N) (st : mstate) (it : item) : bool :=
   let '(cl, pre, out, ob) := it in
   let prev := m_obs st in
   match out with
-  | Fail => true                       (* nothing changed: checked by mon_step *)
+  | Fail =>
+      (* deposit and mint fail only when they must: not when the preview succeeded, the new share supply fits
+         and the assets can be pulled (nothing changed: checked by mon_step) *)
+      match cl with
+      | Deposit a _ f o au =>
+          negb (match fst pre with Ok sh => (o_sup prev + sh <=? MAX128) && can_pull_obs c n st au a f o | Fail => false end)
+      | MintS x _ f o au =>
+          negb (match fst pre with
+                | Ok a => in_i128 x && (o_sup prev + x <=? MAX128) && can_pull_obs c n st au a f o
+                | Fail => false
+                end)
+      | _ => true
+      end
   | Ok _ =>
       match cl with
       | Advance k =>
@@ -310,7 +337,7 @@ Fixpoint mon_from (c : cfg) (n : N) (st : mstate) (its : list item) (i : N) : N 
   match its with
   | [] => 0%N
   | it :: r =>
-      if mon_step c n (m_obs st) it && mon_allow n st it then mon_from c n (mnext st it) r (N.succ i) else N.succ i
+      if mon_step c n (m_obs st) it && mon_allow c n st it then mon_from c n (mnext st it) r (N.succ i) else N.succ i
   end.
 
 Definition minit (h : header) : mstate :=
@@ -342,8 +369,8 @@ Fixpoint model_items (c : cfg) (n : N) (s : state) (cs : list call) : list item 
       (cl, pre_values c s cl, snd so, observe c n (fst so)) :: model_items c n (fst so) r
   end.
 Definition observe_model (c : cfg) (n : N) (now0 : Z) (cs : list call) : trace :=
-  match construct c with
-  | Fail => ({| h_cfg := c; h_n := n; h_now := now0; h_ctor := Fail; h_obs0 := observe c n (init now0) |}, [])
-  | Ok d => ({| h_cfg := c; h_n := n; h_now := now0; h_ctor := Ok d; h_obs0 := observe c n (init now0) |},
-             model_items c n (init now0) cs)
+  match construct c now0 with
+  | Fail => ({| h_cfg := c; h_n := n; h_now := now0; h_ctor := Fail; h_obs0 := observe c n (blank now0) |}, [])
+  | Ok (s0, d) => ({| h_cfg := c; h_n := n; h_now := now0; h_ctor := Ok d; h_obs0 := observe c n s0 |},
+                   model_items c n s0 cs)
   end.
